@@ -467,7 +467,7 @@ func main() {
 				}
 			default: // c06, c07
 				switch {
-				case x < 8 && nk >= 2: // one message with records of several flows
+				case x < 8 && nk >= 2, x == 8: // one message with records of several flows, and of the same flow twice
 					var recs []agg.Rec
 					for _, kk := range keys[:nk] {
 						if fk, ok := flowKind[kk]; ok && s.holds(kk) || kk == k {
@@ -475,6 +475,14 @@ func main() {
 								fk = flowKind[k]
 							}
 							recs = append(recs, s.mkRec(r, kk, fk[r.Intn(len(fk))], false, false))
+						}
+					}
+					if x == 8 || r.Intn(2) == 0 {
+						// a second (and third) record of flow k in the same message - typically the other node's record
+						// of an inter-node flow: every record of a message counts, in message order
+						for n := 1 + r.Intn(2); n > 0; n-- {
+							fk := flowKind[k]
+							recs = append(recs, s.mkRec(r, k, fk[r.Intn(len(fk))], false, false))
 						}
 					}
 					s.ingestBatch(recs)
